@@ -19,6 +19,9 @@ pub struct GraphCase {
     pub edges: Vec<u8>,
     /// bit i: node i is behind an address-filtering NAT
     pub nat: u8,
+    /// all nodes enable only the unencrypted transport
+    #[serde(default)]
+    pub plain: bool,
 }
 
 fn pairs(n: usize) -> Vec<(usize, usize)> {
@@ -114,6 +117,9 @@ pub fn graph_case(ctx: &Ctx, c: &GraphCase) -> Vec<Viol> {
         let mut cfg = base_config();
         cfg.auto_claim = false;
         cfg.mode = Mode::Switch;
+        if c.plain {
+            cfg.crypto.algorithms = vec!["plain".to_string()];
+        }
         sim.add_node(&cfg, c.nat & (1 << i) != 0);
     }
     for (k, (i, j)) in pairs(n).iter().enumerate() {
@@ -394,7 +400,10 @@ pub fn run(ctx: &Ctx) {
         for code in 0..total {
             let edges: Vec<u8> = (0..np).map(|k| ((code >> (2 * k)) & 3) as u8).collect();
             if usable_connected(n, &edges, 0) {
-                cases.push(GraphCase { nodes: n as u8, edges, nat: 0 });
+                cases.push(GraphCase { nodes: n as u8, edges: edges.clone(), nat: 0, plain: false });
+                if n == 3 || code % 5 == 0 {
+                    cases.push(GraphCase { nodes: n as u8, edges, nat: 0, plain: true });
+                }
             }
         }
     }
@@ -403,7 +412,7 @@ pub fn run(ctx: &Ctx) {
         let v = graph_case(ctx, c);
         ctx.report(v);
     });
-    ctx.subspace("all connected labelled graphs on 2..=4 nodes x every orientation per edge (no NAT)", total, true);
+    ctx.subspace("all connected labelled graphs on 2..=4 nodes x every orientation per edge (no NAT), encrypted; all 3-node and every 5th 4-node case also with the unencrypted transport", total, true);
     ctx.sample("graph", || serde_json::to_value(&cases[cases.len() / 2]).unwrap());
     // sampled larger graphs and NAT masks
     let n: u32 = ctx.tier.pick(1_200, 12_000);
@@ -421,7 +430,7 @@ pub fn run(ctx: &Ctx) {
                     e[k] = 1 + edges[27 - i] % 3;
                 }
             }
-            let c = GraphCase { nodes: *nodes, edges: e, nat: if *use_nat { *nat } else { 0 } };
+            let c = GraphCase { nodes: *nodes, edges: e, nat: if *use_nat { *nat } else { 0 }, plain: edges[20] == 3 };
             graph_case(ctx, &c)
         },
     );
